@@ -120,7 +120,7 @@ theorem getIntersection_bad_match (db : Db) (hdb : JoinDb db) (h2 : 2 ≤ db.tab
     | ok colss =>
       rw [fields_resolve_ok db hx names _ hidx1 (fun c hc' => (hpieces c hc').2) colss hc]
   · unfold getIntersection
-    simp only [hx, List.isEmpty_nil, Bool.not_true, Bool.false_eq_true, if_false, hm]
+    simp only [hx, List.isEmpty_nil, Bool.not_true, Bool.false_eq_true, if_false, JoinProofs.matchCols_ge2 db mnames h2, hm]
 
 
 /-! ### `intersect`: what it hands to `data2pdb` per structure -/
@@ -137,10 +137,11 @@ theorem intersect_data_via_sql (db : Db) (hdb : JoinDb db) (hne : db.tabs ≠ []
   rw [getIntersection_eq_sql db hdb hne htn ['*'] (Or.inl rfl) mnames hmn m hm]
   have hx := hdb.noExtra
   unfold getIntersection
-  simp only [hx, List.isEmpty_nil, Bool.not_true, Bool.false_eq_true, if_false, hm,
+  obtain ⟨m', hm', hj⟩ := JoinProofs.matchCols_some db mnames m hm
+  simp only [hx, List.isEmpty_nil, Bool.not_true, Bool.false_eq_true, if_false, hm',
     show (['*'] : Py.Str) = "*".toList from rfl, if_true, cols_star db]
   have hnr : (StdCol.all.map Col.std).contains Col.rowID = false := by decide
-  simp only [hnr, Bool.false_eq_true, if_false, Except.ok.injEq]
+  simp only [hnr, Bool.false_eq_true, if_false, Except.ok.injEq, hj]
   apply List.map_congr_left
   intro k hk
   have hk' : k < db.tabs.length := List.mem_range.1 hk
